@@ -1099,11 +1099,12 @@ def program_c11(rnd):
     mod.append(Let("seen", List([])))
     for _ in range(rnd.randint(2, 5)):
         j = nk()
+        until_args = rnd.choice([[Num(rnd.randint(-1, 6))], [Num(rnd.randint(2, 9)), Num(rnd.choice([1, 2, 3, 0, -1]))], [Str("x")], []])
         srcs = [Invoke(List([Num(1), Num(2), Num(3), Num(4)]), "iter", []), Invoke(Num(rnd.randint(0, 5)), "times", []),
                 Invoke(Str("abc"), "iter", []), Invoke(Str("x,y,z"), "split", [Str(",")]), Invoke(List([]), "iter", []),
-                Invoke(Tuple([Num(5), Num(6)]), "iter", [])]
+                Invoke(Tuple([Num(5), Num(6)]), "iter", []), Invoke(Num(rnd.randint(-2, 3)), "until", until_args)]
         numeric = rnd.random() < 0.7
-        it = copy.deepcopy(srcs[rnd.choice([0, 1, 4, 5])] if numeric else rnd.choice(srcs))
+        it = copy.deepcopy(srcs[rnd.choice([0, 1, 4, 5, 6, 6])] if numeric else rnd.choice(srcs))
 
         def cb(kind):
             x = f"x{nk()}"
